@@ -8,6 +8,9 @@ import (
 	"context"
 	"encoding/json"
 	"io"
+	"os"
+	"path/filepath"
+	"sort"
 	"testing"
 
 	"github.com/wrgl/wrgl/pkg/sorter"
@@ -18,6 +21,61 @@ type C19Plan struct {
 	RunSize uint64    `json:"run_size"`
 	Removed []int     `json:"removed,omitempty"` // column indices to drop from the output
 	Feed    string    `json:"feed"`              // "csv" (SortFile) | "rows" (SetColumns+AddRow) | "bare" (PK+AddRow only, as merge.RowCollector does)
+	// SpillCut: after feeding, spill file number File (mod count) is cut to At bytes (mod size), moved off
+	// row boundaries: a damaged temp file between spilling and merging
+	SpillCut *SpillCut `json:"spill_cut,omitempty"`
+}
+
+type SpillCut struct {
+	File int `json:"file"`
+	At   int `json:"at"`
+}
+
+// cutSpill truncates one spill file inside a row. Returns false if there was nothing to cut.
+func cutSpill(c *SpillCut) bool {
+	d := os.Getenv("TMPDIR")
+	es, _ := os.ReadDir(d)
+	// spill file names are random: order the files by content
+	type spill struct {
+		path string
+		data []byte
+	}
+	var files []spill
+	for _, e := range es {
+		if e.IsDir() {
+			continue
+		}
+		p := filepath.Join(d, e.Name())
+		if data, err := os.ReadFile(p); err == nil {
+			files = append(files, spill{p, data})
+		}
+	}
+	sort.Slice(files, func(i, j int) bool { return bytes.Compare(files[i].data, files[j].data) < 0 })
+	if len(files) == 0 || c.File < 0 || c.At < 0 {
+		return false
+	}
+	path, b := files[c.File%len(files)].path, files[c.File%len(files)].data
+	if len(b) < 2 {
+		return false
+	}
+	// row boundaries
+	bound := map[int]bool{0: true}
+	for off := 0; off < len(b); {
+		_, n, err := decStrList(b[off:])
+		if err != nil || n == 0 {
+			break
+		}
+		off += n
+		bound[off] = true
+	}
+	at := c.At % len(b)
+	for bound[at] {
+		at++
+	}
+	if at >= len(b) {
+		return false
+	}
+	return os.Truncate(path, int64(at)) == nil
 }
 
 func init() {
@@ -28,6 +86,12 @@ func init() {
 			r := NewRand(seed)
 			tb := GenTable(r.Sub("data"), GenOpts{MaxRows: 700, AllowNoPK: true, BigCells: r.Chance(0.1)})
 			p := C19Plan{Table: tb, RunSize: Pick(r, []uint64{0, 1, 1, 16, 64, 300, 4096}), Feed: Pick(r, []string{"csv", "rows", "bare"})}
+			if p.RunSize > 0 && r.Chance(0.15) {
+				p.SpillCut = &SpillCut{File: r.Intn(8), At: r.Intn(100000)}
+				if r.Chance(0.5) {
+					p.SpillCut.At = r.Intn(12) // inside the first row header / first cells
+				}
+			}
 			if len(tb.PK) > 0 && r.Chance(0.4) {
 				pk, _ := pkIndices(tb.Cols, tb.PK)
 				for j := range tb.Cols {
@@ -87,6 +151,8 @@ func execC19(t *testing.T, raw json.RawMessage, res *Result) {
 		res.Invalid("feed")
 		return
 	}
+	cleanTmp()
+	defer cleanTmp()
 	cols, rows := p.Table.Materialise()
 	pkNames := make([]string, len(p.Table.PK))
 	for i, s := range p.Table.PK {
@@ -175,6 +241,10 @@ func execC19(t *testing.T, raw json.RawMessage, res *Result) {
 		return
 	}
 	spills := countTmp()
+	cut := false
+	if p.SpillCut != nil {
+		cut = cutSpill(p.SpillCut)
+	}
 	errCh := make(chan error, 1)
 	var gotB [][]string
 	off := 0
@@ -191,10 +261,15 @@ func execC19(t *testing.T, raw json.RawMessage, res *Result) {
 		gotB = append(gotB, br...)
 		off++
 	}
+	blocksErr := false
 	select {
 	case err := <-errCh:
-		res.Violate("sorter-error", "SortedBlocks: %v", err)
-		return
+		if !cut {
+			res.Violate("sorter-error", "SortedBlocks: %v", err)
+			return
+		}
+		blocksErr = true
+		res.probe("spill_damage_reported_blocks", 1)
 	default:
 	}
 	if err := s1.Close(); err != nil {
@@ -206,12 +281,18 @@ func execC19(t *testing.T, raw json.RawMessage, res *Result) {
 		return
 	}
 	// full blocks except last
-	if len(gotB) > 0 && off != (len(gotB)+254)/255 {
-		res.Violate("blocks-shape", "%d rows in %d blocks", len(gotB), off)
-		return
-	}
-	if !check("blocks", gotB) {
-		return
+	if !blocksErr {
+		if len(gotB) > 0 && off != (len(gotB)+254)/255 {
+			res.Violate("blocks-shape", "%d rows in %d blocks", len(gotB), off)
+			return
+		}
+		which := "blocks"
+		if cut {
+			which = "damaged-spill-silent-blocks" // no error was reported: then nothing may be missing
+		}
+		if !check(which, gotB) {
+			return
+		}
 	}
 
 	// rows output on an identically fed sorter
@@ -220,6 +301,10 @@ func execC19(t *testing.T, raw json.RawMessage, res *Result) {
 		res.Violate("sorter-error", "feeding sorter: %v", err)
 		return
 	}
+	cut2 := false
+	if p.SpillCut != nil {
+		cut2 = cutSpill(p.SpillCut)
+	}
 	errCh2 := make(chan error, 1)
 	var gotR [][]string
 	for rs := range s2.SortedRows(context.Background(), remArg, errCh2) {
@@ -227,10 +312,15 @@ func execC19(t *testing.T, raw json.RawMessage, res *Result) {
 			gotR = append(gotR, append([]string(nil), r...))
 		}
 	}
+	rowsErr := false
 	select {
 	case err := <-errCh2:
-		res.Violate("sorter-error", "SortedRows: %v", err)
-		return
+		if !cut2 {
+			res.Violate("sorter-error", "SortedRows: %v", err)
+			return
+		}
+		rowsErr = true
+		res.probe("spill_damage_reported_rows", 1)
 	default:
 	}
 	s2.Close()
@@ -238,10 +328,20 @@ func execC19(t *testing.T, raw json.RawMessage, res *Result) {
 		res.Violate("spill-file-left", "%d files left in the temp dir after Close", n)
 		return
 	}
+	if cut || cut2 {
+		res.fault("spill_file_truncated", 1)
+		if !rowsErr {
+			if !check("damaged-spill-silent-rows", gotR) {
+				return
+			}
+		}
+		res.Nontrivial = true
+		return
+	}
 	if !check("rows", gotR) {
 		return
 	}
-	if exp.Unique {
+	{
 		for i := range gotB {
 			if !rowsEqual(gotB[i], gotR[i]) {
 				res.Violate("outputs-differ", "row %d: blocks %s, rows %s", i, clip(gotB[i]), clip(gotR[i]))
@@ -273,4 +373,16 @@ func execC19(t *testing.T, raw json.RawMessage, res *Result) {
 		res.probe("keyless", 1)
 	}
 	res.Nontrivial = len(rows) >= 3 && (spills > 0 || len(removed) > 0 || !exp.Unique)
+}
+
+// cleanTmp empties the worker's private temp dir (spill files of a case that ended early).
+func cleanTmp() {
+	d := os.Getenv("VERIF_TMP") // the worker's private temp dir (TMPDIR is set to it in TestMain)
+	if d == "" || d != os.Getenv("TMPDIR") {
+		return
+	}
+	es, _ := os.ReadDir(d)
+	for _, e := range es {
+		os.RemoveAll(filepath.Join(d, e.Name()))
+	}
 }
